@@ -188,6 +188,11 @@ func (m *ModelIPFS) finish(id int, kind string, p *api.Pin, outcome string) erro
 	case "err": // the daemon refuses: nothing changes
 		m.record(id, kind, p, "err")
 		return ErrIPFS
+	case "errc": // nothing changes, and the failure wraps context.Canceled: what the
+		// connector reports when its own no-progress watchdog cancels the request.
+		// Not a cancellation of the tracker's operation.
+		m.record(id, kind, p, "err")
+		return fmt.Errorf("model ipfs: request cancelled by the connector's progress watchdog: %w", context.Canceled)
 	case "lost": // the effect lands but the answer is lost on the way back
 		_, err := m.apply(kind, p)
 		if err != nil {
